@@ -106,11 +106,26 @@ def main():
             except Exception as ex:
                 log = open(os.path.join(wd, h['name'] + '.log')).read()[-1500:]
                 results[h['name']] = dict(harness=h['name'], verdict='inconclusive', reason='engine crashed: ' + log)
+    # ---- native cross-validation of the interpreter: re-run witness models of sequential harnesses as machine code
+    nat_ok = 0; nat_bad = []
+    cands = [h for h in hs if not h.get('threads') and results.get(h['name'], {}).get('verdict') == 'pass' and results[h['name']].get('native_inputs') is not None]
+    cands = cands[:(2 if tier == 'quick' else 4)]
+    nprocs = []
+    for h in cands:
+        nprocs.append((h, subprocess.Popen([sys.executable, os.path.join(ROOT, 'tools', 'native_validate.py'), os.path.join(wd, h['name'] + '.result.json'), os.path.join(wd, h['name'] + '.cfg.json')],
+                                           stdout=subprocess.PIPE, stderr=subprocess.STDOUT, text=True, env=dict(os.environ, VERIF_REPO=REPO))))
+    for h, p in nprocs:
+        try: o = p.communicate(timeout=300)[0].strip()
+        except Exception: p.kill(); o = 'timeout'
+        if p.returncode == 0 and 'agree' in o: nat_ok += 1
+        elif 'skip' in o: pass
+        else: nat_bad.append('%s: %s' % (h['name'], o[-300:]))
     # ---- verdicts
     known = load_known()
     viol_lines = []; known_lines = []; inconc = []
     nq = 0; ndis = 0; solver_s = 0.0; samples = []; states = 0; trans = 0; wrep = 0
     funcs = {}; hsum = []; allfiles = set()
+    for b in nat_bad: inconc.append('native re-execution disagrees with the interpreter: ' + b)
     for h in hs:
         r = results[h['name']]; v = r.get('verdict', 'inconclusive')
         ent = dict(harness=h['name'], src=h['src'], threads=h.get('threads', []), K=h.get('K', 0), preempt=h.get('preempt'),
@@ -151,6 +166,7 @@ def main():
             inconc.append('%s: %s %s' % (h['name'], v, str(r.get('reason') or [q for q in r.get('queries', []) if q.get('reason')])[:1500]))
         hsum.append(ent)
     wall = time.time() - t0
+    ev_native = dict(native_runs_agreeing=nat_ok, native_compilers=['clang++-14 -O1', 'g++ -O2'])
     ev = dict(property_id=pid, tier=tier, seed=seed, level=P.get('level', 'model_checking'), wall_s=round(wall, 1),
               violations=len(viol_lines),
               coverage=dict(states=max(states, 1), transitions=max(trans, 1), traces_validated_against_impl=wrep,
@@ -166,7 +182,7 @@ def main():
                             harnesses=hsum, repo_files_read=sorted(allfiles),
                             functions_encoded=[dict(fn=fn, ins=n) for fn, n in sorted(funcs.items(), key=lambda x: -x[1])[:60]],
                             n_functions_encoded=len(funcs),
-                            inconclusive=inconc),
+                            inconclusive=inconc, **ev_native),
               assumptions=props.COMMON_ASSUMPTIONS + P.get('assumptions', []))
     os.makedirs(EVDIR, exist_ok=True)
     json.dump(ev, open(os.path.join(EVDIR, pid + '.json'), 'w'), indent=1)
